@@ -84,6 +84,36 @@ pub fn gen_miri() -> i32 {
         pics.push(encode(&gen_picture(&mut rng, &cfg, fl.clone(), *t, 16, 16, 2 + i as u8)).0);
     }
     emit("SORENSON", &pics);
+    // the same stream with other INTRADC values (a content-only sibling)
+    {
+        let mut rng2 = Rng::new(0xC17);
+        let mut cfg = GenCfg::draw(&mut rng2, &[0]);
+        cfg.density = 1;
+        cfg.max_coef_sum = 2000;
+        cfg.mb_weights = [1, 2, 1, 1, 1, 0, 0];
+        let fl = Flavour::Sorenson { version: 0, size_code: 0 };
+        let mut specs = vec![gen_textured_intra(&mut rng2, &cfg, fl.clone(), 16, 16, 1)];
+        for (i, t) in [PType::P, PType::Disposable, PType::P].iter().enumerate() {
+            specs.push(gen_picture(&mut rng2, &cfg, fl.clone(), *t, 16, 16, 2 + i as u8));
+        }
+        let mut sib = Vec::new();
+        for mut sp in specs {
+            for mb in sp.mbs.iter_mut() {
+                if let MbSpec::Coded { kind, blocks, .. } = mb {
+                    if kind_is_intra(*kind) {
+                        for b in blocks.iter_mut() {
+                            b.dc = b.dc.wrapping_add(37);
+                            if b.dc == 0 || b.dc == 128 {
+                                b.dc = 99;
+                            }
+                        }
+                    }
+                }
+            }
+            sib.push(encode(&sp).0);
+        }
+        emit("SORENSON_SIBLING", &sib);
+    }
     // standard PLUSPTYPE: I, P of an 8x8 picture (touches the lazily initialised option masks)
     let mut cfg = GenCfg::draw(&mut rng, &[4]);
     cfg.density = 1;
